@@ -30,7 +30,7 @@ RULE = (
 ASSUMPTIONS = ["CPython 3.12 dataclasses module is the reference", "field types/values are fixed representatives (int, 0, list)"]
 MANIFEST = {
     "category": "exploration",
-    "text": "Bounded exhaustive enumeration of dataclass definitions (17 field forms, <= 2/3 fields, 15 decorator variants) and of deviation sets (<= 2/3) on a depth-3 hierarchy with colliding field names; each source is loaded statically through the real loader with the built-in dataclasses extension and compared with inspect.signature of the __init__ CPython generates for the executed source; families for nested classes, diamonds, and hierarchies spread over three modules of a package (bases and the dataclasses names arriving through imports and wildcards). Field forms include the bare MISSING sentinel as class-level value; in family XM the decorator can also come from a compatibility module of the package.",
+    "text": "Bounded exhaustive enumeration of dataclass definitions (17 field forms, <= 2/3 fields, 15 decorator variants) and of deviation sets (<= 2/3) on a depth-3 hierarchy with colliding field names; each source is loaded statically through the real loader with the built-in dataclasses extension and compared with inspect.signature of the __init__ CPython generates for the executed source; families for nested classes, diamonds, and hierarchies spread over three modules of a package (bases and the dataclasses names arriving through imports and wildcards). Field forms include the bare MISSING sentinel as class-level value; in family XM the decorator can also come from a compatibility module of the package. Field forms include options unpacked from a module-level dictionary (plain and dotted spelling) and from a dictionary display; family XM has bases written with three dotted names and a ClassVar that reaches the module through the compatibility module.",
     "note": "CPython is the oracle; complete inside the bounds on fields, decorator arguments and deviations.",
     "technique": "model checking by exhaustive small-scope / deviation-bounded enumeration on the real loader, CPython dataclasses as oracle",
 }
